@@ -3,6 +3,7 @@
    "Value types".  Everything here is a pure function on values.
 
    Value  == [k:"nil"] | [k:"bool", b] | [k:"str", s: Seq(0..255)] | [k:"num", n: Int]
+           | [k:"rat", n: Int, d: 2..MaxInt]  (exact rational that is not an integer, lowest terms)
            | [k:"list", es: Seq(Value)] | [k:"map", ps: Seq(<<key, value>>)]   (keys pairwise not Eq)
            | [k:"fn", id, ...]  (user closure: ElvCore.tla)  | [k:"fn", id: 0, b: name] (builtin)
            | [k:"exc", c: Cause]                               (c.c = "ok" is the value $ok)
@@ -29,6 +30,7 @@ VNil      == [k |-> "nil"]
 VBool(b)  == [k |-> "bool", b |-> b]
 VStr(s)   == [k |-> "str", s |-> s]
 VNum(n)   == [k |-> "num", n |-> n]
+VRat(n, d) == [k |-> "rat", n |-> n, d |-> d]      \* exact non-integer rational in lowest terms, d >= 2
 VList(es) == [k |-> "list", es |-> es]
 VMap(ps)  == [k |-> "map", ps |-> ps]
 VExc(c)   == [k |-> "exc", c |-> c]
@@ -122,12 +124,27 @@ NumClass(s) ==
 
 \* A value used where a number is expected ("Strings and numbers"): typed number or number-like string.
 AsNum(v) == CASE v.k = "num" -> [cls |-> "int", n |-> v.n]
+              [] v.k = "rat" -> [cls |-> "rat", n |-> v.n, d |-> v.d]
               [] v.k = "str" -> NumClass(v.s)
               [] OTHER       -> [cls |-> "notnum"]
 
 \* to-string of a value that can take part in compounding: strings and numbers.
-Stringable(v) == v.k \in {"str", "num"}
-ToBytes(v) == IF v.k = "num" THEN IntToBytes(v.n) ELSE v.s
+Stringable(v) == v.k \in {"str", "num", "rat"}
+ToBytes(v) == IF v.k = "num" THEN IntToBytes(v.n)
+              ELSE IF v.k = "rat" THEN IntToBytes(v.n) \o <<47>> \o IntToBytes(v.d) ELSE v.s
+
+\* exact fractions [n, d] (d >= 1)
+RECURSIVE Gcd(_, _)
+Gcd(a, b) == IF b = 0 THEN a ELSE Gcd(b, a % b)
+Abs(x) == IF x < 0 THEN -x ELSE x
+\* the value of the fraction n/d (d > 0): an integer value or a rational in lowest terms; ok = FALSE
+\* if it leaves the model range
+MkNum(n, d) == LET g == Gcd(Abs(n), d)  nn == n \div g  dd == d \div g IN
+               IF ~InRange(nn) \/ dd > MaxInt THEN [ok |-> FALSE]
+               ELSE [ok |-> TRUE, v |-> IF dd = 1 THEN VNum(nn) ELSE VRat(nn, dd)]
+FracOf(c) == IF c.cls = "rat" THEN [n |-> c.n, d |-> c.d] ELSE [n |-> c.n, d |-> 1]
+IsNumber(v) == v.k \in {"num", "rat"}
+NumFrac(v) == IF v.k = "rat" THEN [n |-> v.n, d |-> v.d] ELSE [n |-> v.n, d |-> 1]
 
 Ascii(s) == \A i \in 1..Len(s) : s[i] < 128
 
@@ -185,7 +202,7 @@ MapDissoc(ps, key) == LET j == MapFind(ps, key, 1) IN
 
 \* Values the model accepts as map keys (equality decidable, hashable in Elvish).
 RECURSIVE KeyOK(_)
-KeyOK(v) == CASE v.k \in {"nil", "bool", "str", "num"} -> TRUE
+KeyOK(v) == CASE v.k \in {"nil", "bool", "str", "num", "rat"} -> TRUE
               [] v.k = "list" -> \A i \in 1..Len(v.es) : KeyOK(v.es[i])
               [] v.k = "map"  -> \A i \in 1..Len(v.ps) : KeyOK(v.ps[i][1]) /\ KeyOK(v.ps[i][2])
               [] OTHER -> FALSE
@@ -268,7 +285,7 @@ Index(v, key) ==
          IF ~KeyOK(key) THEN Bad(COOM)
          ELSE LET j == MapFind(v.ps, key, 1) IN
               IF j = 0 THEN Bad(CNoSuchKey) ELSE Good(v.ps[j][2])
-    [] v.k \in {"nil", "bool", "num"} -> Bad(CType)           \* not indexable
+    [] v.k \in {"nil", "bool", "num", "rat"} -> Bad(CType)    \* not indexable
     [] v.k = "exc" ->
          \* "Exception": a pseudo-map with a `reason` field (itself a pseudo-map for fail / flow /
          \* pipeline causes); the stack trace and the other causes are opaque
@@ -301,7 +318,7 @@ Assoc(v, key, val) ==
          ELSE LET rg == IndexRange(ix, Len(v.es)) IN
               IF rg.r = "elem" THEN Good(VList([v.es EXCEPT ![rg.at] = val])) ELSE Bad(rg.c)
     [] v.k = "map" -> IF ~KeyOK(key) THEN Bad(COOM) ELSE Good(VMap(MapAssoc(v.ps, key, val)))
-    [] v.k \in {"nil", "bool", "num"} -> Bad(CType)
+    [] v.k \in {"nil", "bool", "num", "rat"} -> Bad(CType)
     [] OTHER -> Bad(COOM)
 
 \* ---------------------------------------------------------------- iteration (for, each, all, explode)
@@ -320,7 +337,9 @@ CmpBytes(s, t, i) == IF i > Len(s) \/ i > Len(t) THEN CmpInt(Len(s), Len(t))
 CmpSeq(a, b, i) == IF i > Len(a) \/ i > Len(b) THEN CmpInt(Len(a), Len(b))
                    ELSE LET o == Cmp(a[i], b[i]) IN IF o # "eq" THEN o ELSE CmpSeq(a, b, i + 1)
 Cmp(a, b) ==
-  IF a.k # b.k THEN "unc"
+  IF IsNumber(a) /\ IsNumber(b) THEN
+    LET x == NumFrac(a)  y == NumFrac(b) IN CmpInt(x.n * y.d, y.n * x.d)      \* "Typed numbers: Compared numerically"
+  ELSE IF a.k # b.k THEN "unc"
   ELSE CASE a.k = "bool" -> IF a.b = b.b THEN "eq" ELSE IF ~a.b THEN "lt" ELSE "gt"
          [] a.k = "num"  -> CmpInt(a.n, b.n)
          [] a.k = "str"  -> CmpBytes(a.s, b.s, 1)
@@ -342,6 +361,7 @@ Matches(v, rec) ==
          [] v.k = "fn"   -> TRUE
          [] v.k = "exc"  -> CauseMatches(v.c, rec.c)
          [] v.k = "num"  -> "n" \in DOMAIN rec /\ v.n = rec.n
+         [] v.k = "rat"  -> v.n = rec.n /\ v.d = rec.d
          [] v.k = "str"  -> v.s = rec.s
          [] v.k = "bool" -> v.b = rec.b
          [] OTHER        -> TRUE
